@@ -44,4 +44,13 @@ ZQ(kind, li)     == Enc(ZRow(kind, li))
 TQ(nu, kind, li) == Enc(TRow(nu, kind, li))
 \* sign of the critical value = sign of (p - 1/2)
 CritSign(kind, li) == ZRow(kind, li).sg
+
+\* designed unpaired sample pairs with non-integer effective degrees of freedom (tools/gen_tables_x.py):
+\* rows carry the samples, the exact rational dof and the quantile enclosure
+TQXRows == ndJsonDeserialize(TDir \o "/tqx.ndjson")
+NDesigned == Len(TQXRows) \div (2 * NLEV)
+XRow(pi, kind, li) == TQXRows[((pi - 1) * 2 + (KindIdx(kind) - 1)) * NLEV + li]
+DesignedA(pi) == XRow(pi, "two", 1).a
+DesignedB(pi) == XRow(pi, "two", 1).b
+DesignedNu(pi) == <<BigOfLimbs(1, XRow(pi, "two", 1).nu_num), BigOfLimbs(1, XRow(pi, "two", 1).nu_den)>>
 =============================================================================
